@@ -72,8 +72,10 @@ def main():
             err = rec['err']
             feats = []
             cards = [(sf['n'], (sf['k'], tuple(sf['p']))) for sf in deck['surfs']]
-            later_dups = {n for i, (n, c) in enumerate(cards) if any(c == c2 for _, c2 in cards[:i])}
-            earlier_dups = {n for i, (n, c) in enumerate(cards) if any(c == c2 for _, c2 in cards[i + 1:])}
+            # de-duplication keeps the LOWEST number of a group of coincident surfaces: "later" = a duplicate of a
+            # lower-numbered card (card order and number order differ in renumbered decks)
+            later_dups = {n for n, c in cards if any(c == c2 and n2 < n for n2, c2 in cards)}
+            earlier_dups = {n for n, c in cards if any(c == c2 and n2 > n for n2, c2 in cards)}
             bodies = {sf['n'] for sf in deck['surfs'] if sf['k'] == 'rpp'}
             cones = {sf['n'] for sf in deck['surfs'] if sf['k'] == 'kz'}
             if later_dups & set(flagged):
